@@ -158,6 +158,14 @@ def message(r, d, fc, sub=None, beyond=False, small=False):
                     break
                 objs.append((i, blob(r, n)))
                 left -= 2 + n
+                # an object id may occur more than once (pymodbus keeps such values as a list); repeats stay adjacent,
+                # and empty values occur in any position of the run
+                while not small and left > 4 and r.random() < 0.12:
+                    n = r.choice([0, 0, r.randint(0, min(left - 2, 6))])
+                    if r.random() < 0.3 and objs[-1][0] == i and len(objs[-1][1]) and n:
+                        objs[-1] = (i, b'')
+                    objs.append((i, blob(r, n)))
+                    left -= 2 + n
             m['objects'] = objs
     return m
 
